@@ -68,9 +68,18 @@ let cmd_depth (req : json) : json =
   | "import" -> jdepth (import_depth g)
   | _ -> (match jdepth (macro_depth g) with Obj l -> Obj (l @ [ ("known", Bool (known_macro_recursion g)) ]) | j -> j)
 
+let cmd_bank (req : json) : json =
+  let size = to_z (field req "size") in
+  match jsite jz (bank_padding size (to_z (field req "len")) (to_bool (field req "fill"))) with
+  | Obj l -> Obj (l @ [ ("known", Bool (known_bank_size_huge size)) ])
+  | j -> j
+
 let cmd_known (req : json) : json =
   let l = ref [] in
-  (match field req "pc" with Null -> () | j -> l := ("pc", Bool (known_pc_out_of_range (pc_from_i64 (to_z j)))) :: !l);
+  (match field req "pc" with Null -> () | j ->
+     let u k d = match field req k with Null -> d | x -> pc_from_i64 (to_z x) in
+     let pc = pc_from_i64 (to_z j) in
+     l := ("pc", Bool (known_pc_out_of_range pc (u "initial" pc) (u "target" pc))) :: !l);
   (match field req "text" with Null -> () | j ->
      let t = text_of j in
      l := ("nesting", jnat (nesting_depth O O t)) :: ("deep", Bool (known_deep_nesting t)) :: !l);
@@ -95,4 +104,4 @@ let cmd_consts (_ : json) : json =
         ("nesting_limit", jnat nesting_limit); ("huge_loop_threshold", jz huge_loop_threshold) ]
 
 let () = main_loop [ ("binop", cmd_binop); ("literal", cmd_literal); ("stmt", cmd_stmt); ("name", cmd_name); ("loop", cmd_loop);
-                     ("depth", cmd_depth); ("known", cmd_known); ("replay", cmd_replay); ("consts", cmd_consts) ]
+                     ("depth", cmd_depth); ("bank", cmd_bank); ("known", cmd_known); ("replay", cmd_replay); ("consts", cmd_consts) ]
